@@ -513,8 +513,13 @@ func (e *EdgeQuery) addResult(r EdgeQueryResult) {
 }
 
 func (e *EdgeQuery) maybeAddResult(shape Shape, shapeID, edgeID int32) {
-	if _, ok := e.testedEdges[ShapeEdgeID{shapeID, edgeID}]; e.avoidDuplicates && !ok {
-		return
+	if e.avoidDuplicates {
+		// Test each edge at most once (an edge can be listed in several cells).
+		key := ShapeEdgeID{shapeID, edgeID}
+		if _, ok := e.testedEdges[key]; ok {
+			return
+		}
+		e.testedEdges[key] = 1
 	}
 	edge := shape.Edge(int(edgeID))
 	dist := e.distanceLimit
